@@ -229,3 +229,50 @@ def c05_audit(p_tc: bool, p_iu: bool, p_tr: bool, p_loc: bool, v_tc: bool, v_iu:
         if got[k] != want[k]:
             return False
     return True
+
+
+
+# ---- f: message columns with a translated sibling, in both column orders -------------------------
+def c05_message_order(which: int, plain_first: bool, c0: int) -> bool:
+    """
+    vpre: 33 <= c0 <= 126 and c0 != 36
+    vpost: _ == True
+    """
+    col, attr = [("constraint_message", "jr:constraintMsg"), ("required_message", "jr:requiredMsg")][which]
+    P, T = S(c0, 49), S(c0, 50)
+    row = {"type": "text", "name": "q1", "label": "L", "constraint": ". != 1", "required": "yes"}
+    cells = [(col, P), (col + "::L1", T)]
+    if not plain_first:
+        cells.reverse()
+    for k, v in cells:
+        row[k] = v
+    survey, _w, _js = build_survey({"survey": [row]})
+    root = survey.xml()
+    model = elements(root, "model")[0]
+    mine = [b for b in _binds(model) if b.getAttribute("nodeset") == "/data/q1"]
+    if len(mine) != 1:
+        return False
+    ref = "jr:itext('/data/q1:" + attr + "')"
+    if mine[0].getAttribute(attr) != ref:
+        return False
+    # both cells are shown: the translated one in L1, the plain one in the default language
+    vals = {}
+    for tr in elements(root, "translation"):
+        for tx in child_elements(tr):
+            if tx.getAttribute("id") == "/data/q1:" + attr:
+                vals[tr.getAttribute("lang")] = "".join(c.data for v in child_elements(tx) for c in v.childNodes)
+    return vals == {"default": P, "L1": T}
+
+
+specialise(
+    "C05",
+    "f.message-order",
+    c05_message_order,
+    {"which": [0, 1]},
+    timeout=300,
+    kernel=K,
+    shims=("S1", "S2", "S3", "S4"),
+    symbolic="column order of the plain and the translated message column (boolean), shared tracer character of both cells",
+    bounds="constraint_message / required_message fixed per instance",
+    weight=40,
+)
